@@ -5,10 +5,13 @@ pub mod c01;
 pub mod c02;
 pub mod c03;
 pub mod c04;
+pub mod c05;
+pub mod c07;
 pub mod c08;
 pub mod c12;
 pub mod c13;
 pub mod c16a;
+pub mod c18;
 pub mod c20a;
 
 pub struct Prop {
@@ -24,11 +27,14 @@ pub fn all() -> Vec<Prop> {
         Prop { info: &c03::INFO, run: c03::run, replay: c03::replay },
         Prop { info: &c04::INFO, run: c04::run, replay: c04::replay },
         Prop { info: &c02::INFO10, run: c02::run10, replay: c02::replay10 },
+        Prop { info: &c05::INFO, run: c05::run, replay: c05::replay },
+        Prop { info: &c07::INFO, run: c07::run, replay: c07::replay },
         Prop { info: &c08::INFO, run: c08::run, replay: c08::replay },
         Prop { info: &c12::INFO, run: c12::run, replay: c12::replay },
         Prop { info: &c13::INFO, run: c13::run, replay: c13::replay },
         Prop { info: &c13::INFO14, run: c13::run14, replay: c13::replay14 },
         Prop { info: &c16a::INFO, run: c16a::run, replay: c16a::replay },
+        Prop { info: &c18::INFO, run: c18::run, replay: c18::replay },
         Prop { info: &c20a::INFO, run: c20a::run, replay: c20a::replay },
     ]
 }
